@@ -180,7 +180,7 @@ static void free_ops(void)
 static void world_defaults(void)
 {
     memset(&W, 0, sizeof W);
-    W.nthreads_icv = 16; W.max_active_levels = 1; W.thread_limit = 64;
+    W.nthreads_icv = 16; W.max_active_levels = 1; W.thread_limit = 64; W.team_fail_above = 32768;
     W.max_steps = 50000000ULL; W.junk_on = 1; W.junk_seed = 1; W.alloc_fail_at = -1;
     W.clock_epoch = 1700000000; W.clock_step = 0; W.explicit_decisions = 0;
     g_wall_limit = 60; g_emit_trace = 0; g_hooks_log_on = 0; g_c10_on = 1; g_stop_on_fail = 0; g_slot_guard = 0;
@@ -195,6 +195,7 @@ static void set_world(const char *k, const char *v)
     else if (!strcmp(k, "nthreads_icv")) W.nthreads_icv = (int)x;
     else if (!strcmp(k, "max_active_levels")) W.max_active_levels = (int)x;
     else if (!strcmp(k, "thread_limit")) W.thread_limit = (int)x < 1 ? 1 : (int)x;
+    else if (!strcmp(k, "team_fail_above")) W.team_fail_above = (int)x;
     else if (!strcmp(k, "p_defer")) W.p_defer = (uint32_t)x;
     else if (!strcmp(k, "p_switch")) W.p_switch = (uint32_t)x;
     else if (!strcmp(k, "p_hook_yield")) W.p_hook_yield = (uint32_t)x;
